@@ -33,4 +33,17 @@ theorem best_fit_line_solves_normal_equations (s : SeriesXY ℝ)
   unfold bestFitLine
   simp only [hcast]
   exact key
+/-! ### the circle fit's least-squares problem (regenerated pieces of `CircleFit`) -/
+
+/-- After EVERY parameter update the outlier weights are recomputed, from the residuals of the new parameters, with the
+    mode the fit was asked for (the translator's pattern is the whole body of `set_params`: with the call removed or
+    moved it does not match) — so the samples retained are those retained at the current circle, not at the guess. -/
+theorem weights_recomputed_with_the_fit_mode (mode : Nat) : GenRs.fit_reweight_mode mode = mode := rfl
+
+/-- a sample of weight 1 contributes its radial residual, a sample of weight 0 nothing: the sum of squares the solver
+    minimises is that of the retained samples only -/
+theorem weighted_residual (r : ℝ) : GenRs.fit_weighted_residual r 1 = r ∧ GenRs.fit_weighted_residual r 0 = 0 := by
+  unfold GenRs.fit_weighted_residual
+  constructor <;> ring
+
 end C09U
